@@ -154,6 +154,13 @@ Apply(s, op, a) ==
               IF ch # "ok" THEN Res(s, Err(ch))
               ELSE IF ~Aligned(s, O + a.o, a.al) THEN Res(s, Err("Misaligned"))
               ELSE Res(s, [k |-> "ok", off |-> O + a.o, data |-> Sub(s.mem, O + a.o, a.esz)])
+       \* ByteValued::from_slice / from_mut_slice on the host bytes [o, o+n) under the current slice: a reference is
+       \* produced exactly when the length is the type's size and the address is aligned for it, and it designates
+       \* those very bytes; anything else is None (never a reference)
+    [] op \in {"bv_from_slice", "bv_from_mut_slice"} ->
+         IF ~IsSlice(c) \/ Chk(L, a.o, a.n) # "ok" THEN Res(s, Skip)
+         ELSE IF a.n # a.esz \/ ~Aligned(s, O + a.o, a.al) THEN Res(s, [k |-> "none"])
+         ELSE Res(s, [k |-> "ok", off |-> O + a.o, data |-> Sub(s.mem, O + a.o, a.esz)])
        \* ---------------- Bytes<usize> on a slice ----------------
     [] op = "write" ->
          IF ~IsSlice(c) THEN Res(s, Skip)
@@ -330,6 +337,9 @@ PtrGuard   == Step("ptr_guard", [x |-> 0])
 GetAtomicRef == \E o \in OffVals, e \in AtomVals : Step("get_atomic_ref", [o |-> o, esz |-> e])
 AlignedAsRef == \E o \in OffVals, e \in EszVals \ {0} : \E al \in {x \in {1, 2, 4, 8, 16} : e % x = 0} :
                    Step("aligned_as_ref", [o |-> o, esz |-> e, al |-> al])
+BvFromSlice == \E o \in OffVals, e \in EszVals \ {0}, m \in {"bv_from_slice", "bv_from_mut_slice"} :
+                  \E al \in {x \in {1, 2, 4, 8, 16} : e % x = 0}, n \in {e, e + 1} \cup (IF e > 1 THEN {e - 1} ELSE {}) :
+                   Step(m, [o |-> o, n |-> n, esz |-> e, al |-> al])
 Write      == \E x \in OffVals, b \in BufLens : Step("write", [addr |-> x, buf |-> Tag(b)])
 Read       == \E x \in OffVals, b \in BufLens : Step("read", [addr |-> x, bl |-> b])
 WriteSlice == \E x \in OffVals, b \in BufLens : Step("write_slice", [addr |-> x, buf |-> Tag(b)])
@@ -378,7 +388,7 @@ Init == \E r \in Roots :
 
 Derivations == \/ Subslice \/ GetSlice \/ Offset \/ SplitAt \/ GetRef \/ GetArrayRef \/ ToSlice \/ RefAt
                \/ ArrayFromSlice \/ AsVolatileSlice \/ Root
-Queries     == \/ ComputeEndOffset \/ LenQ \/ PtrGuard \/ GetAtomicRef \/ AlignedAsRef
+Queries     == \/ ComputeEndOffset \/ LenQ \/ PtrGuard \/ GetAtomicRef \/ AlignedAsRef \/ BvFromSlice
 DataOps     == \/ Write \/ Read \/ WriteSlice \/ ReadSlice \/ WriteObj \/ ReadObj \/ Store \/ Load
                \/ CopyTo \/ CopyFrom \/ CopyToVS \/ ReadVolatileFrom \/ ReadExactVolatileFrom
                \/ WriteVolatileTo \/ WriteAllVolatileTo \/ WriteToCursor \/ WriteAllToCursor \/ ReadFromBadFd \/ WriteToBadFd \/ ReadCursor
@@ -400,7 +410,7 @@ ContainedInParent ==
 \* a request that does not fit is answered with an error and never with an accessor
 ErrNoAccessor == [][ last'.r.k # "ok" => st'.cur = st.cur ]_vars
 \* typed / atomic references are only produced for aligned addresses
-AlignedRefs == (last.op \in {"get_atomic_ref", "aligned_as_ref", "aligned_as_mut"} /\ last.r.k = "ok") =>
+AlignedRefs == (last.op \in {"get_atomic_ref", "aligned_as_ref", "aligned_as_mut", "bv_from_slice", "bv_from_mut_slice"} /\ last.r.k = "ok") =>
                   (st.B + last.r.off) % (IF last.op = "get_atomic_ref" THEN last.a.esz ELSE last.a.al) = 0
 \* C04: bytes change only inside the accessor used, or inside the named target of a slice-to-slice copy
 Frame ==
@@ -419,7 +429,7 @@ DirtyConfined ==
 ReadsMarkNothing ==
     [][ last'.op \in {"read", "read_slice", "read_obj", "load", "copy_to", "write_volatile_to",
                       "write_all_volatile_to", "write_to_cursor", "write_all_to_cursor", "write_to_bad_fd", "ref_load", "arr_load", "arr_copy_to", "ptr_guard", "len",
-                      "compute_end_offset", "get_atomic_ref", "aligned_as_ref", "subslice", "get_slice",
+                      "compute_end_offset", "get_atomic_ref", "aligned_as_ref", "bv_from_slice", "bv_from_mut_slice", "subslice", "get_slice",
                       "offset", "split_at", "get_ref", "get_array_ref", "to_slice", "ref_at",
                       "array_from_slice", "as_volatile_slice", "root"}
           => st'.dirty = st.dirty /\ st'.mem = st.mem ]_vars
